@@ -475,7 +475,12 @@ class C12(Prop):
         except idem.IdemDomainError as exc:
             ctx.skip('outside the domain: %s' % str(exc)[:60])
         over300 = sorted(k for k, v in big.items() if v > 300.0)
-        attrs = dict(kind=kind, function=(over300[0] if over300 and kind != 'unary' else fname),
+        function = fname
+        if kind != 'unary' and over300:
+            function = over300[0]
+        elif fname == 'tree' and 'arctan:mixed' in regimes:
+            function = 'arctan'
+        attrs = dict(kind=kind, function=function,
                      negative_real_part=bool(flags_neg), arg_over_300=bool(over300),
                      regimes=sorted(regimes))
         if kind == 'binop' and case['op'] == '**' and case['order'] == 'wz' and not scalar \
@@ -486,7 +491,7 @@ class C12(Prop):
                 or (case['order'] == 'wz' and case['ptype'] == 'bicomplex' and pts[0][1] == 0)):
             attrs['regimes'] = sorted(set(attrs['regimes']) | {'pow:0-d bicomplex exponent with imag1 == 0'})
         if SKIP_KNOWN and ('tanh:over300' in attrs['regimes'] or 'arctan:mixed' in attrs['regimes']
-                           or any(r.endswith((':huge', ':tiny')) for r in attrs['regimes'])):      # incl. log1p:huge
+                           or any(r.endswith((':huge', ':tiny')) and not r.startswith('log1p') for r in attrs['regimes'])):
             ctx.skip('development: known defect regime skipped')
         # --- library
         libf = self._libf(case, Bicomplex)
